@@ -95,6 +95,21 @@ impl Sys for MapMap {
             _ => "?".into(),
         }
     }
+    fn rust_type() -> &'static str {
+        "Map<u8, Map<u8, Orswot<u8, u8>, u8>, u8>"
+    }
+    fn rust_gen(c: Cmd, a: u8, _idx: usize) -> String {
+        let (inner, member) = (c.y / 2, c.y % 2);
+        match c.k {
+            ADD => format!("s.update({k}u8, s.get(&{k}).derive_add_ctx({a}), |m, c| m.update({i}u8, c, |set, c| set.add({mm}u8, c)))", k = c.x, a = a, i = inner, mm = member),
+            RM_MEMBER => format!("s.update({k}u8, s.get(&{k}).derive_add_ctx({a}), |m, c| m.update({i}u8, c, |set, _c| set.rm({mm}u8, set.contains(&{mm}).derive_rm_ctx())))", k = c.x, a = a, i = inner, mm = member),
+            RM_INNER => format!("s.update({k}u8, s.get(&{k}).derive_add_ctx({a}), |m, _c| m.rm({i}u8, m.get(&{i}).derive_rm_ctx()))", k = c.x, a = a, i = c.y),
+            _ => format!("s.rm({k}u8, s.get(&{k}).derive_rm_ctx())", k = c.x),
+        }
+    }
+    fn rust_reads() -> &'static str {
+        "let v: Vec<(u8, Vec<(u8, Vec<u8>)>)> = s.iter().map(|c| (*c.val.0, c.val.1.iter().map(|e| { let mut x: Vec<u8> = e.val.1.read().val.into_iter().collect(); x.sort(); (*e.val.0, x) }).collect())).collect(); format!(\"outer -> inner -> members {:?} clock {:?}\", v, s.read_ctx().add_clock)"
+    }
     fn classes(_c: Cmd) -> (Class, Class) {
         (Class::Key, Class::None)
     }
